@@ -45,6 +45,10 @@ def menu(d):
     M["ok_inc_file"] = ("load", os.path.join(d, "main_ok.xbb"))
     M["bad_lex"] = ("loads", H + "int n = 7\n$\n")
     M["bad_syntax"] = ("loads", H + "int n = 7\nG( | 0\n")
+    M["bad_first_token"] = ("loads", "foo name a\nversion 1.0\nG | 0\n")
+    M["bad_empty"] = ("loads", "")
+    M["bad_no_name"] = ("loads", "version 1.0\nG | 0\n")
+    M["bad_last_token"] = ("loads", H + "G | 0\nH(1")
     M["bad_syntax_meta"] = ("loads", "name a\nversion\n")
     M["bad_undef"] = ("loads", H + "int n = 7\nG(u) | 0\n")
     M["bad_undef_tmpl"] = ("loads", H + "float x = {q}\nG({n}) | 0\nG(u) | 0\n")
@@ -55,6 +59,10 @@ def menu(d):
     M["bad_tdm"] = ("loads", H + "type tdm\nint array p0 =\n    1, 2\nG(u) | 0\n")
     M["bad_mode"] = ("loads", H + "int n = 9\nG | 1.5\n")
     M["bad_reserved"] = ("loads", H + "int i = 3\nfloat q0 = 1\n")
+    # the same relative file names in two project directories with different contents, loaded by relative path
+    # after changing into the directory (working directory as part of the history)
+    M["rel_projA"] = ("load_rel", os.path.join(d, "projA"))
+    M["rel_projB"] = ("load_rel", os.path.join(d, "projB"))
     M["bad_inc_call"] = ("loads", H + inc("sub.xbb") + "\nint n = 8\nSub(y=1) | [0, 1]\n")
     M["bad_inc_syntax"] = ("loads", H + inc("broken.xbb") + "\nG | 0\n")
     M["bad_inc_second"] = ("load", os.path.join(d, "main_second_bad.xbb"))
@@ -79,6 +87,10 @@ def write_files(d):
     w("sub.xbb", "name Sub\nversion 1.0\n\nfloat n = 0.25\nA({x}, n) | 0\nB | [1, 0]\n")
     w("broken.xbb", "name Broken\nversion 1.0\n\nint n = 3\nG( | 0\n")
     w("main_ok.xbb", H + 'include "sub.xbb"\n\nint n = 2\nSub(x=n) | [1, 2]\n')
+    for proj, val, modes in (("projA", "0.5", "[1, 0]"), ("projB", "7", "[0, 1]")):
+        os.makedirs(os.path.join(d, proj), exist_ok=True)
+        w(proj + "/sub.xbb", "name Sub\nversion 1.0\n\nA({x}, %s) | 0\nB | %s\n" % (val, modes))
+        w(proj + "/main.xbb", H + 'include "sub.xbb"\n\nSub(x=1) | [2, 3]\n')
     w("main_second_bad.xbb", H + 'include "sub.xbb"\ninclude "broken.xbb"\n\nSub(x=1) | [1, 2]\n')
 
 
@@ -87,7 +99,11 @@ def outcome(ev):
     import blackbird
     kind, arg = ev
     try:
-        p = blackbird.loads(arg) if kind == "loads" else blackbird.load(arg)
+        if kind == "load_rel":
+            os.chdir(arg)
+            p = blackbird.load("main.xbb")
+        else:
+            p = blackbird.loads(arg) if kind == "loads" else blackbird.load(arg)
         c = ("OK", observe.prog_canon(p, exact=True))
     except Exception as e:  # noqa
         p = None
@@ -212,7 +228,7 @@ def warm_antlr(M):
     from blackbird.blackbirdParser import blackbirdParser
     for kind, arg in M.values():
         try:
-            text = arg if kind == "loads" else open(arg).read()
+            text = arg if kind == "loads" else open(arg if kind == "load" else os.path.join(arg, "main.xbb")).read()
             ps = blackbirdParser(antlr4.CommonTokenStream(blackbirdLexer(antlr4.InputStream(text))))
             ps.removeErrorListeners()
             ps.start()
